@@ -133,12 +133,14 @@ theorem serial_replay (h : Hist) (hinv : Inv h) (latest : Ver) (rest : Hist) (hh
       exact same_trans h2 (replay_congr h' ts hsame)
 
 /-- the hypotheses of `serial_replay` are what the writers deliver: the transactions of the model's delete / update /
-    append / overwrite / create-index / drop-column writers are `Built` against the manifest they ran on, for every
+    append / overwrite / create-index / drop-column / add-column / compaction writers are `Built` against the manifest they ran on, for every
     manifest and every predicate -/
 theorem writers_built :
     (∀ m p, Built m (mkDelete m p)) ∧ (∀ m p v, Built m (mkUpdate m p v)) ∧ (∀ m n, Built m (mkDropCol m n)) ∧
-    (∀ m rows, Built m (mkAppend m rows)) ∧ (∀ m f rows, Built m (mkOverwrite m f rows)) ∧ (∀ m u, Built m (mkIndex m u)) :=
-  ⟨mkDelete_built, mkUpdate_built, mkDropCol_built, mkAppend_built, mkOverwrite_built, mkIndex_built⟩
+    (∀ m rows, Built m (mkAppend m rows)) ∧ (∀ m f rows, Built m (mkOverwrite m f rows)) ∧ (∀ m u, Built m (mkIndex m u)) ∧
+    (∀ m k, Built m (mkAddCol m k)) ∧ (∀ m ids u, Built m (mkRewrite m ids u)) :=
+  ⟨mkDelete_built, mkUpdate_built, mkDropCol_built, mkAppend_built, mkOverwrite_built, mkIndex_built, mkAddCol_built,
+    mkRewrite_built⟩
 
 /-! ### where the code does NOT meet the property: columns are identified by field id, and field ids are re-used
 
